@@ -17,6 +17,10 @@ Voc == <<
   L("  ##! ##!> include-except f x", "comment", <<"a", "b">>),
   L("##! ##!> define v w", "comment", <<"a", "b">>),
   L("##!", "comment", <<"a", "b">>),
+  L("##! ^ and $ are added by the rule itself", "comment", <<"a", "b">>),
+  L("##! + words", "comment", <<"a", "b">>),
+  L("##! $ x", "comment", <<"a", "b">>),
+  L("##!+ U", "flags", <<"##!+ U", "a", "b">>),
   L("##!^ ##!> include f", "prefix", <<"##!^ ##!> include f", "a", "b">>),
   L("##!$ ##!+ i", "suffix", <<"a", "b", "##!$ ##!+ i">>),
   L("##!^ ##! not a comment", "prefix", <<"##!^ ##! not a comment", "a", "b">>),
